@@ -66,7 +66,7 @@ Proof.
   pose proof (sel_items_plain db l [] items o Hp H) as Hm. clear H.
   revert o Hm. induction items as [|it items IH]; intros o Hm; [exact Hm|].
   cbn [forallb] in Hp. apply andb_true_iff in Hp. destruct Hp as [Hit Hp]. cbn [map_opt] in *.
-  destruct it as [lv i q| | | | | | | | | |]; try discriminate. destruct lv; [|discriminate]. cbn [plain_item proj_idx] in *.
+  destruct it as [lv i q| | | | | | | | | |]; try discriminate. destruct lv; [|discriminate]. cbn [plain_item join_item proj_idx] in *.
   destruct (nth_error l i) as [v|] eqn:Ev; [|discriminate].
   assert (Hi : (i < lw)%nat) by (rewrite <- Hl; apply nth_error_Some; congruence).
   apply Nat.ltb_lt in Hi.
